@@ -25,6 +25,8 @@ inductive RExp where
   | split (call : String) (isMap : Bool) (e : RExp)
   /-- `merge` over mapped call `call` -/
   | merge (call : String) (isMap : Bool) (e : RExp)
+  /-- `DisabledExp`: null when `d` evaluates to true, else the value of `v` -/
+  | disabled (d : RExp) (v : RExp)
 deriving Inhabited
 
 /-- run-time state: outputs of every node per fork assignment, and the index set
@@ -56,6 +58,7 @@ def evalR (st : StructTable) (ρ : Store) : ForkAssign → RExp → J
   | f, .split c true e => elemMap (evalR st ρ f e) ((f.lookup c).getD .none)
   | f, .merge c false e => .arr ((ρ.idx c f).map fun ix => evalR st ρ (fset f c ix) e)
   | f, .merge c true e => .obj ((ρ.idx c f).map fun ix => (ix.keyText, evalR st ρ (fset f c ix) e))
+  | f, .disabled d v => if isTrue (evalR st ρ f d) then .null else evalR st ρ f v
 def evalRList (st : StructTable) (ρ : Store) : ForkAssign → List RExp → List J
   | _, [] => []
   | f, e :: es => evalR st ρ f e :: evalRList st ρ f es
@@ -63,6 +66,20 @@ def evalRFields (st : StructTable) (ρ : Store) : ForkAssign → List (String ×
   | _, [] => []
   | f, (k, e) :: es => (k, evalR st ρ f e) :: evalRFields st ρ f es
 end
+
+/-- `(*DisabledExp).makeDisabledExp(disable, inner)` (disabled_exp.go), the cases
+whose result is decided by the two arguments alone: a null value stays null, a
+constant control is decided now, any other control (a reference, or the element
+a `split` selects from a run-time collection) wraps the value.  Not modelled:
+the distribution of a control that is a `split` over a LITERAL collection into a
+`split` of per-element wrappers (and its `allSame` shortcut), and the
+look-through of `split (merge …)` controls; the pointer-equality shortcuts of
+the Go code (reuse `s`, do not nest two wrappers on the same control) change the
+tree, not its value (`disabled_idem`). -/
+def mkDisabled : RExp → RExp → RExp
+  | _, .lit .null => .lit .null
+  | .lit (.atom s), inner => if s == "true" then .lit .null else inner
+  | d, inner => .disabled d inner
 
 mutual
 /-- `BindingPath(f)` on resolved expressions: through `split` and `merge` the
@@ -75,6 +92,7 @@ def bpR (fld : String) : RExp → RExp
   | .ref node ty path => .ref node ty (path ++ [fld])
   | .split c m e => .split c m (bpR fld e)
   | .merge c m e => .merge c m (bpR fld e)
+  | .disabled d v => mkDisabled d (bpR fld v)
 def bpRList (fld : String) : List RExp → List RExp
   | [] => []
   | e :: es => bpR fld e :: bpRList fld es
@@ -95,6 +113,7 @@ def wtR (st : StructTable) : Ty → RExp → Bool
   | t, .split _ true e => t.mapDim == 0 && wtR st ⟨t.base, t.arrDim + 1, 0⟩ e
   | t, .merge _ false e => t.arrDim != 0 && wtR st { t with arrDim := t.arrDim - 1 } e
   | t, .merge _ true e => t.arrDim == 0 && t.mapDim != 0 && wtR st ⟨t.base, 0, t.mapDim - 1⟩ e
+  | t, .disabled _ v => wtR st t v
 def wtRList (st : StructTable) : Ty → List RExp → Bool
   | _, [] => true
   | t, e :: es => wtR st t e && wtRList st t es
